@@ -28,25 +28,25 @@ func runC10(c *eng.Ctx, thorough bool) {
 	// ---------- C10.1 sealed guard family
 	c.Clause("R8", "C10.1")
 	exceptions := map[string]string{
-		"barrier.(*AESGCMBarrier).Initialized":            "bootstrap probe: reads whether a keyring record exists, no key material involved",
-		"barrier.(*AESGCMBarrier).Initialize":             "bootstrap: builds the first keyring from the caller's key",
-		"barrier.(*AESGCMBarrier).Unseal":                 "the unsealing itself (clause 3)",
-		"barrier.(*AESGCMBarrier).Seal":                   "drops the keyring (clause 2)",
-		"barrier.(*AESGCMBarrier).persistKeyringInternal": "helper: persists the keyring passed as argument; callers checked",
-		"barrier.(*AESGCMBarrier).putInternal":            "helper below putWithBackend; callers checked",
-		"barrier.(*AESGCMBarrier).aeadForTerm":            "helper; callers checked",
-		"barrier.(*AESGCMBarrier).encryptions":            "helper; callers checked",
-		"barrier.(*AESGCMBarrier).persistEncryptions":     "helper; callers checked",
-		"barrier.(*AESGCMBarrier).updateRootKeyCommon":    "helper of SetRootKey/RotateRootKey; callers checked",
-		"barrier.(*AESGCMBarrier).recoverKeyring":         "helper of Unseal/ReloadKeyring",
-		"barrier.(*AESGCMBarrier).ReloadKeyring":          "key management called by Core on an unsealed barrier (standby reload): returns no storage data; with a nil keyring it faults instead of serving",
-		"barrier.(*AESGCMBarrier).ReloadRootKey":          "key management called by Core on an unsealed barrier (standby reload)",
-		"barrier.(*AESGCMBarrier).RotateRootKey":          "key management called by Core during rekey on an unsealed barrier",
-		"barrier.(*AESGCMBarrier).SetRootKey":             "key management called by Core right after Unseal",
-		"barrier.(*TransactionalAESGCMBarrier).BeginTx":   "creates the transaction object; every operation issued through it re-checks the sealed flag (checked in this family)",
+		"barrier.(*AESGCMBarrier).Initialized":                  "bootstrap probe: reads whether a keyring record exists, no key material involved",
+		"barrier.(*AESGCMBarrier).Initialize":                   "bootstrap: builds the first keyring from the caller's key",
+		"barrier.(*AESGCMBarrier).Unseal":                       "the unsealing itself (clause 3)",
+		"barrier.(*AESGCMBarrier).Seal":                         "drops the keyring (clause 2)",
+		"barrier.(*AESGCMBarrier).persistKeyringInternal":       "helper: persists the keyring passed as argument; callers checked",
+		"barrier.(*AESGCMBarrier).putInternal":                  "helper below putWithBackend; callers checked",
+		"barrier.(*AESGCMBarrier).aeadForTerm":                  "helper; callers checked",
+		"barrier.(*AESGCMBarrier).encryptions":                  "helper; callers checked",
+		"barrier.(*AESGCMBarrier).persistEncryptions":           "helper; callers checked",
+		"barrier.(*AESGCMBarrier).updateRootKeyCommon":          "helper of SetRootKey/RotateRootKey; callers checked",
+		"barrier.(*AESGCMBarrier).recoverKeyring":               "helper of Unseal/ReloadKeyring",
+		"barrier.(*AESGCMBarrier).ReloadKeyring":                "key management called by Core on an unsealed barrier (standby reload): returns no storage data; with a nil keyring it faults instead of serving",
+		"barrier.(*AESGCMBarrier).ReloadRootKey":                "key management called by Core on an unsealed barrier (standby reload)",
+		"barrier.(*AESGCMBarrier).RotateRootKey":                "key management called by Core during rekey on an unsealed barrier",
+		"barrier.(*AESGCMBarrier).SetRootKey":                   "key management called by Core right after Unseal",
+		"barrier.(*TransactionalAESGCMBarrier).BeginTx":         "creates the transaction object; every operation issued through it re-checks the sealed flag (checked in this family)",
 		"barrier.(*TransactionalAESGCMBarrier).BeginReadOnlyTx": "creates the transaction object; every operation re-checks the sealed flag",
-		"barrier.(*AESGCMBarrierTransaction).Commit":      "commits the wrapped transaction: all its operations were guarded when issued",
-		"barrier.(*AESGCMBarrierTransaction).Rollback":    "rolls the wrapped transaction back",
+		"barrier.(*AESGCMBarrierTransaction).Commit":            "commits the wrapped transaction: all its operations were guarded when issued",
+		"barrier.(*AESGCMBarrierTransaction).Rollback":          "rolls the wrapped transaction back",
 	}
 	isSink := func(in ssa.Instruction) bool {
 		ci, ok := in.(ssa.CallInstruction)
